@@ -412,7 +412,7 @@ func (t *Int32Tree) Insert(key int32, value interface{}) {
 		child.lock()
 
 		if index == 0 {
-			if smallest := child.smallest(); key < smallest {
+			if smallest := parent.runts[0]; key < smallest {
 				// preemptively update smallest value
 				parent.runts[0] = key
 			}
@@ -545,7 +545,7 @@ func (t *Int32Tree) Update(key int32, callback func(interface{}, bool) interface
 		child.lock()
 
 		if index == 0 {
-			if smallest := child.smallest(); key < smallest {
+			if smallest := parent.runts[0]; key < smallest {
 				// preemptively update smallest value
 				parent.runts[0] = key
 			}
